@@ -54,7 +54,8 @@ def run_C01(tier, seed):
                   "are fixed boundary shapes (empty pack, 4094..4097 and 8190/8200 tiny items, clusters closing on size, content > "
                   "cluster, offset-width boundaries, empty contents, dedup adder around 4 MiB incl. contents that are the "
                   "concatenation of two contents inserted one after the other, Detect around 6.0 bits, file "
-                  "sub-ranges, packagings), the rest random mixes. Non-trivial = at least one non-empty content and (>= 2 items or "
+                  "sub-ranges, packagings), the rest random mixes. Every address is read through region.stream() or (every third) the "
+                  "owning conversion ByteStream::from(region), contents up to 100 KB also through get_slice. Non-trivial = at least one non-empty content and (>= 2 items or "
                   "a non-default hint/source). Distinct = hash(compression, level, packaging, adder, run-length sequence of "
                   "(length class, hint, source, dup)).",
                   assumptions=["expected bytes are regenerated from (case seed, call number) by the harness generator",
@@ -70,7 +71,9 @@ def run_C02(tier, seed):
                   "counts {0,1,2,255..257,..thousands} x 1..3 index windows x integers handed over as immediate values, deferred "
                   "words or a per-entry mix x zero or arbitrary free data (directory header, index free data and key), written to "
                   "a file or a memory cursor and read back through DirectoryPack/Index/AnyBuilder; every raw value is also read "
-                  "through RawValue::get() and the typed accessors. Non-trivial = >= 1 entry and (>= 2 properties or a variant). Distinct = "
+                  "through RawValue::get() and the typed accessors; indexes are also fetched by number, and half of the windows of a case "
+                  "with free data give their first entry as an entry handle (deferred position); one limit case ends an indexed value "
+                  "store of 16 875 distinct values on 1 125 duplicates of earlier values. Non-trivial = >= 1 entry and (>= 2 properties or a variant). Distinct = "
                   "hash(schema shape, column kinds and value classes, entry-count class, window shapes).",
                   assumptions=["values are derived from (case seed, store, column, entry number) by the harness generator",
                                "the expected final order of an unsorted store is the insertion order",
@@ -83,7 +86,8 @@ def run_C03(tier, seed):
                   "cases = sorted stores with unique key tuples: array keys over small alphabets {00,ff}/{00,ff,a,b}/all bytes sharing "
                   "prefixes shorter, equal and longer than the inline prefix (every prefix 0..31 in thorough, {0,1,2,3,8,31} in quick), "
                   "plain and indexed stores, uint/sint keys (handed over as immediate values, deferred words or a mix; probes alternate between "
-                  "the two forms), two-property keys, 1..5000 keys, whole-store and window indexes. Monitors: "
+                  "the two forms), two-property keys, keys of 254..1024 bytes sharing all but their last bytes, 1..5000 keys, whole-store and "
+                  "window indexes; every lookup also on EntryRange::from(&index) and, for one-property keys, through new_property_compare. Monitors: "
                   "read-back position = position in the model sorted with the reader's comparison; consecutive keys read back never "
                   "decrease; for every present key (sampled above 120/400) and generated absent neighbours, linear and binary "
                   "Range::find must both answer exactly the expected position / None. Cases 0..9 are the bounded-exhaustive part: "
@@ -129,10 +133,13 @@ def run_C14(tier, seed):
                   "part (a): every generated file (bare content packs from C01's generator, bare directory packs from the C02/C03/C15 "
                   "generators, whole containers in the three packagings with 0..2 extra content packs, every fourth one made with the "
                   "low-level creators as loose files or joined by tools::concat, with arbitrary free data in every pack header, index and "
-                  "manifest pack record) is decoded by the independent "
+                  "manifest pack record, extra packs next to the entry point or in a sub-directory, pack ids dense or spread out) is decoded by the independent "
                   "decoder (harness/src/indep.rs, no jubako code): every layout rule (header CRCs, mirror tail, declared size, check "
                   "block, blake3 over the documented range with the manifest mask, table lengths, sized offsets, cluster/entry/value "
-                  "store encodings, zero padding) must hold and the decoded entries/indexes/contents/free data must equal the model. "
+                  "store encodings, zero padding) must hold and the decoded entries/indexes/contents/free data must equal the model; every "
+                  "recorded location must name the produced file holding that pack, the manifest's copy of each check info must equal the "
+                  "pack's own, and the reader's listing of each file (tools::open_pack: count, uuids, kind, vendor, version, size) must "
+                  "name the packs the decoder finds. "
                   "Non-trivial and distinct as in C01/C02 plus the case kind and packaging.",
                   assumptions=["the independent decoder is itself unproven code, validated on the repository's byte-level fixtures' "
                                "CRC check value and on thousands of generated files", "zstd/lz4/xz2 crates used as plain decompressors, blake3 crate as hash",
@@ -180,8 +187,11 @@ def run_C11(tier, seed):
                   "MISSING(info) with info = the manifest's description decoded independently, get_pack(unknown id) is None, check() is "
                   "Ok(true) iff no present pack was altered. Every 8th case is made with the low-level creators instead: content packs "
                   "recorded in the manifest in reverse id order, all but the last joined into the entry-point file and recorded there with the "
-                  "empty location or with the (now stale) name of the file they came from; the external pack removed or not, one embedded "
-                  "pack altered or not. Non-trivial = > 1 scenario. Distinct = hash(packaging, pack count, seed).",
+                  "empty location or with the (now stale) name of the file they came from, with or without a different valid pack sitting at "
+                  "that stale location; the external pack removed or not, one embedded pack altered or not. A fifth of the cases keep the "
+                  "extra packs in a sub-directory and add the mode 'that directory replaced by a regular file'; a third spread the pack ids "
+                  "out (holes are unknown packs, not missing ones). Every get_bytes answer is also taken through the MayMissPack "
+                  "combinators (map / transpose / as_ref). Non-trivial = > 1 scenario. Distinct = hash(packaging, pack count, seed).",
                   assumptions=["the manifest's pack descriptions are taken from the independent decoder"], timeout=200)
 
 
@@ -197,7 +207,8 @@ def run_C12(tier, seed):
                   "locations and unchanged descriptions, the library opens the manifest, check() is true and shows the new locations; at "
                   "the end the container content is unchanged. Every fourth history is driven through the repository's own command line "
                   "tool (`jbk locate <file> <uuid> <location>`, old location parsed from its report, declared location read back with "
-                  "`jbk locate <file> <uuid>`). Non-trivial = >= 1 effective rewrite. Distinct = hash(packaging, layout, steps, seed).",
+                  "`jbk locate <file> <uuid>`). A handle on the file opened before the history (tools::open_pack) is kept for all of it: a "
+                  "manifest built from it after each step must show the new locations. Non-trivial = >= 1 effective rewrite. Distinct = hash(packaging, layout, steps, seed).",
                   assumptions=["admissible location = at most 213 bytes of valid UTF-8"], timeout=200)
 
 
@@ -216,7 +227,10 @@ def run_C13(tier, seed):
 
 LAB_RULE = ("specimens built from the seed: four ~2-3 KB containers (OneFile zstd, OneFile uncompressed, TwoFiles lz4, NoConcat lzma; raw and "
             "compressed clusters, variants, plain and indexed value stores, two indexes) and a medium one (1103 contents so that the content "
-            "table exceeds 4 KiB and is read through mmap, 3 clusters incl. multi-MiB compressed ones, entry store > 4 KiB). Damage: "
+            "table exceeds 4 KiB and is read through mmap, 3 clusters incl. multi-MiB compressed ones, entry store > 4 KiB), three containers made "
+            "with the low-level creators and joined by tools::concat (three content packs sharing the empty location, pack ids from 1 or from 0; "
+            "one with an extra pack missing), and one whose content table exceeds 64 KiB (17 000 contents in a file of its own). Structures of "
+            "4 KiB and more get 32x the positions and mid-byte masks; files are also cut exactly at every pack boundary. Damage: "
             "single-byte XOR with 0x01/0x80/0xff (quick: every byte of the first specimen + 1/4 of the others + k positions per named structure "
             "of the medium one; thorough: EVERY byte x 3 masks of the small specimens), 2-8 byte multi-flips inside one pack, zeroed / "
             "overwritten ranges")
@@ -319,7 +333,8 @@ def run_C08(tier, seed):
                  "(closes a cluster through the blob limit, compressed or raw), runs of 2..6 contents of 2.2 MiB (close compressed clusters "
                  "through the size limit and fill the queue), runs of raw contents, runs mixing memory / file / file-range sources and "
                  "hints in the same clusters, contents of one cluster or more followed by a duplicate; every third sequence goes through "
-                 "the deduplicating adder; 25..80 clusters each. Worker counts {1,2,4,15} quick / "
+                 "the deduplicating adder; runs of raw-only clusters; half of the sequences end on clusters holding nothing but empty "
+                 "contents; 25..80 clusters each. Worker counts {1,2,4,15} quick / "
                  "1..15 thorough through the CPU affinity seen by available_parallelism; 4 / 8 delay seeds rotating over the profiles "
                  "uniform heavy-tailed 0-20 ms per (callback, cluster), one slow worker, slow writer, slow workers with a fast main thread. "
                  "Monitors: offline checker over the Progress event log (each cluster opened, handled and written exactly once in that order, "
